@@ -903,6 +903,11 @@ func mapDelete(e *Enc, st *State, m, k *T, mt *types.Map) {
 func (v *fnVC) rangeInit(i *ssa.Range, st *State) {
 	t := v.e.freshConst("iter$"+sanitize(i.Name()), sRef)
 	v.vals[i] = t
+	if mt, ok := i.X.Type().Underlying().(*types.Map); ok {
+		// no key has been yielded yet
+		ks := v.e.sortOf(mt.Key())
+		st.set(visitedHeap(i), mk(fmt.Sprintf("((as const %s) false)", arrSort(ks, sBool).SMT()), arrSort(ks, sBool)))
+	}
 }
 
 func (v *fnVC) next(i *ssa.Next, st *State) {
@@ -935,5 +940,15 @@ func (v *fnVC) next(i *ssa.Next, st *State) {
 	e.assume(tImp(ok, has))
 	v.assumeWellFormed(vv, st)
 	v.vals[i] = &T{Sort: e.sortOf(tt), Tuple: []*T{ok, k, vv}}
-	e.uses["range over map: each iteration yields a key present in the map with its value (completeness of the iteration is not modelled unless an invariant states it)"] = true
+	// ghost set of yielded keys: a yielded key is new; when the range is exhausted every
+	// key of the map has been yielded (the loop body is assumed not to insert into the map)
+	vs := arrSort(k.Sort, sBool)
+	vis := st.get(visitedHeap(rng), vs)
+	e.assume(tImp(ok, mk(sapp("not", sapp("select", vis.S, k.S)), sBool)))
+	e.fresh++
+	qk := fmt.Sprintf("q$vk!%d", e.fresh)
+	qt := mk(qk, k.Sort).withGo(mt.Key())
+	e.assume(tImp(tNot(ok), mk(fmt.Sprintf("(forall ((%s %s)) (! (=> %s (select %s %s)) :pattern (%s)))", qk, k.Sort.SMT(), mapHas(e, st, x, qt, mt).S, vis.S, qk, mapHas(e, st, x, qt, mt).S), sBool)))
+	st.set(visitedHeap(rng), e.define("visited", tIte(ok, mk(sapp("store", vis.S, k.S, "true"), vs), vis)))
+	e.uses["range over map: each iteration yields a not yet yielded key present in the map with its value; when it ends every key has been yielded (the body is assumed not to insert into the map)"] = true
 }
